@@ -21,5 +21,5 @@ PY
   git -C /repo checkout -- .
   echo "$name: $ids rc=$rc $(echo "$out" | grep -c '^VIOLATION') violation lines"
 done
-find replays -name '*.json' -newer tools/regress_seeds.sh -delete 2>/dev/null
+# (replay files written by these runs are left in place)
 git -C /repo status --short
